@@ -266,6 +266,22 @@ def rcSpec (o : String) : Bool :=
       if id == "-" then rc == "-" else parseHexInt rc == some ((i.filter (· == id)).length : Int))
   | _ => false
 
+/-- `resize` hands back a block that no other handle refers to: when the block was shared it is detached (new block, old count
+    decremented) whatever the new size is -- a resize that returns the shared block itself lets writes through the result reach the
+    other sharers ("handed out twice").  `c` is the state before the operation: `r.k.z` acts only on a non-null slot, `z.k.z` only on a
+    null one. -/
+def rcExclusiveAfterResize (c : RcClient) (tok : String) (o : String) : Bool :=
+  match dotFields tok with
+  | some (opn, [k, _]) =>
+    if (opn == "r" && (c.slot k).isSome) || (opn == "z" && (c.slot k).isNone) then
+      match o.splitOn ";" with
+      | [rcs, ids] =>
+        let id := (ids.splitOn ",").getD k "-"
+        id == "-" || (rcs.splitOn ",").getD k "" == "1"
+      | _ => false
+    else true
+  | _ => true
+
 def rcLine (line : String) (args res : List String) : String :=
   let rec go (ops obs : List String) (c : RcClient) (k : Nat) : Option (Nat × Bool × String) :=
     match ops, obs with
@@ -275,7 +291,7 @@ def rcLine (line : String) (args res : List String) : String :=
       | none => some (k, false, "<bad op>")
       | some c' =>
         let m := rcShow c'
-        let specOk := rcSpec o
+        let specOk := rcSpec o && rcExclusiveAfterResize c op o
         if specOk && m == o then go ops' obs' c' (k + 1) else some (k, specOk, m)
     | _, _ => some (k, false, "<observation missing>")
   match go args res ⟨FreeList.Pool.init, fun _ => none, fun _ => 0⟩ 0 with
